@@ -29,6 +29,29 @@ class Unsupported(Exception):
     pass
 
 
+PROFILES = {
+    # the overlap scan of C05: strings are opaque (α), compared through konst::cmp_str / eq_str
+    "utils": {"src": ("sylvia", "src", "utils.rs"), "out": "UtilsFns.lean", "ns": "Extracted.Utils", "imports": ["Sylvia.Model.RustSem"],
+              "opens": "open RustSem", "vars": "variable {α : Type} [DecidableEq α] (cmp_str : α → α → Ordering)", "str": "α", "only": None},
+    # the rule behind the published name lists (C03 / C05 / C10): strings are lists over the identifier alphabet `Casing.Ch`
+    "casing": {"src": ("sylvia-derive", "src", "types", "msg_variant.rs"), "out": "CasingFns.lean", "ns": "Extracted.CasingFns",
+               "imports": ["Sylvia.Model.RustSem", "Sylvia.Model.Casing"], "opens": "open RustSem Casing", "vars": "", "str": "List Ch",
+               "only": ["serde_snake_case"]},
+}
+
+
+def ch_literal(c):
+    if c == "_":
+        return "Ch.us"
+    if "a" <= c <= "z":
+        return "(Ch.lower %d)" % (ord(c) - 97)
+    if "A" <= c <= "Z":
+        return "(Ch.upper %d)" % (ord(c) - 65)
+    if "0" <= c <= "9":
+        return "(Ch.digit %d)" % (ord(c) - 48)
+    raise Unsupported("character literal %r outside the identifier alphabet" % c)
+
+
 def ind(lines, n=1):
     return [("  " * n) + l for l in lines]
 
@@ -75,6 +98,8 @@ class FnTr:
             return "Bool"
         if k == "repeat":
             return "List %s" % self.paren_ty(self.infer(e[1]))
+        if k == "call" and e[1][0] == "path" and e[1][1] == ["String", "new"]:
+            return self.mod.ty(["tpath", ["String"]])
         if k == "call":
             f = e[1]
             if f[0] == "path":
@@ -144,6 +169,8 @@ class FnTr:
             return k("true" if e[1] else "false")
         if t == "unit":
             return k("()")
+        if t == "char":
+            return k(ch_literal(e[1]))
         if t == "path":
             p = e[1]
             if len(p) == 1:
@@ -170,6 +197,9 @@ class FnTr:
             op = e[1]
             if op in ("==", "+", "<", "<=", ">", ">=", "-", "*", "!="):
                 return self.ex(e[2], lambda l: self.ex(e[3], lambda r: k("(%s %s %s)" % (l, op, r))))
+            if op in ("&&", "||"):
+                # short-circuit evaluation is invisible when both operands are pure
+                return k("(%s %s %s)" % (self.pure(e[2]), op, self.pure(e[3])))
             raise Unsupported("binary operator %s in expression position" % op)
         if t == "mcall":
             name = e[2]
@@ -177,6 +207,12 @@ class FnTr:
                 return self.ex(e[1], lambda r: k("%s.length" % r))
             if name == "is_empty" and not e[3]:
                 return self.ex(e[1], lambda r: k("%s.isEmpty" % r))
+            if name == "is_uppercase" and not e[3]:
+                return self.ex(e[1], lambda r: k("(isUpper %s)" % r))
+            if name == "to_ascii_lowercase" and not e[3]:
+                return self.ex(e[1], lambda r: k("(toLower %s)" % r))
+            if name == "char_indices" and not e[3]:
+                return self.ex(e[1], lambda r: k("(charIndices %s)" % r))
             raise Unsupported("method %s" % name)
         if t == "repeat":
             return self.ex(e[1], lambda v: self.ex(e[2], lambda n: k("(List.replicate %s %s)" % (n, v))))
@@ -202,6 +238,14 @@ class FnTr:
             return [".panic"]
         raise Unsupported("expression %s" % json.dumps(e)[:100])
 
+    def pure(self, e):
+        """lean term of an expression that has no effects (no indexing, no calls of translated functions)"""
+        out = []
+        lines = self.ex(e, lambda v: (out.append(v), ["@"])[1])
+        if lines != ["@"] or len(out) != 1:
+            raise Unsupported("operand of a short-circuit operator with effects: %s" % json.dumps(e)[:80])
+        return out[0]
+
     def args(self, es, k):
         vals = []
 
@@ -216,6 +260,8 @@ class FnTr:
         if f[0] != "path":
             raise Unsupported("call of a non-path")
         p = f[1]
+        if p == ["String", "new"] and not argl:
+            return k("[]")
         if p == ["konst", "cmp_str"]:
             self.mod.uses_cmp.add(self.name)
             return self.args(argl, lambda vs: k("(cmp_str %s %s)" % tuple(vs)))
@@ -270,7 +316,7 @@ class FnTr:
                 return self.ex(init, kl, hint=x)
             if st[0] == "sexpr":
                 e, semi = st[1], st[2]
-                if last and not semi and kval is not None and e[0] not in ("while", "for_range", "return", "continue", "panic"):
+                if last and not semi and kval is not None and e[0] not in ("while", "for_range", "for", "return", "continue", "panic"):
                     return self.ex(e, kval)
                 return self.stmt(e, ctx, rest)
             raise Unsupported("statement %s" % json.dumps(st)[:80])
@@ -329,7 +375,10 @@ class FnTr:
             return [".panic"]
         if t == "call":
             return self.ex(e, lambda v: rest(), hint="_")
-        if t in ("while", "for_range"):
+        if t == "mcall" and e[2] == "push" and len(e[3]) == 1 and e[1][0] == "path" and len(e[1][1]) == 1:
+            x = e[1][1][0]
+            return self.ex(e[3][0], lambda v: ["let %s := %s ++ [%s]" % (x, x, v)] + rest())
+        if t in ("while", "for_range", "for"):
             return self.loop(e, ctx, rest)
         raise Unsupported("statement expression %s" % json.dumps(e)[:100])
 
@@ -360,6 +409,8 @@ class FnTr:
                 if e[2][0] == "path":
                     acc.append(e[2][1][0])
                 return
+            if t == "mcall" and e[2] == "push" and e[1][0] == "path" and len(e[1][1]) == 1:
+                acc.append(e[1][1][0])
             if t == "slet":
                 if e[1][0] == "pid":
                     local.add(e[1][1])
@@ -392,7 +443,8 @@ class FnTr:
         if ctx is not None:
             raise Unsupported("nested loops")
         is_for = e[0] == "for_range"
-        body = e[4] if is_for else e[2]
+        is_each = e[0] == "for"
+        body = e[4] if is_for else (e[3] if is_each else e[2])
         j = self.nloops
         self.nloops += 1
         lname = "%s.loop%d" % (self.name, j)
@@ -404,11 +456,14 @@ class FnTr:
                 raise Unsupported("assignment to unknown variable %s" % v)
         ment = set()
         self.mentioned(body, ment)
-        if not is_for:
+        if not is_for and not is_each:
             self.mentioned(e[1], ment)
+        bound = set()
+        if is_each:
+            self.pat_vars(e[1], bound)
         # does the body call something that needs fuel?
         needs_fuel0 = self.mod.body_needs_fuel(body)
-        fixed = [v for v in self.order if v not in carried and (v in ment or v in self.generics)]
+        fixed = [v for v in self.order if v not in carried and v not in bound and (v in ment or v in self.generics)]
         if is_for and e[1] in fixed:
             fixed.remove(e[1])
         sigma = "Unit" if not carried else " × ".join(self.paren_ty(self.types[v]) for v in carried)
@@ -417,7 +472,15 @@ class FnTr:
         fixed_txt = " ".join(fixed)
         pre = ("fuel0 " if needs_fuel0 else "")
         self_call = lname + " " + pre + fixed_txt
-        if is_for:
+        if is_each:
+            # `for pat in iter { body }`: structural recursion over the list the iterator stands for
+            elem_ty, pat_txt = self.each_elem(e[1], e[2])
+            lctx["continue"] = lambda: ["%s rest%s" % (self_call, "".join(" " + v for v in carried))]
+            body_lines = self.block(body, lctx, None, lctx["continue"])
+            head = ["| []%s => .ok (.done %s)" % ("".join(", " + v for v in carried), done_pat),
+                    "| %s :: rest%s =>" % (pat_txt, "".join(", " + v for v in carried))]
+            counters = "List %s → " % self.paren_ty(elem_ty)
+        elif is_for:
             iv = e[1]
             self.types[iv] = "Nat"
             lctx["continue"] = lambda: ["%s k (%s+1)%s" % (self_call, iv, "".join(" " + v for v in carried))]
@@ -441,6 +504,8 @@ class FnTr:
         self.loops.append({"name": lname, "lines": [sig, ty] + ind([head[0], head[1]]) + ind(body_lines, 2)})
         self.mod.loop_owner[lname] = self.name
         # the call site
+        if is_each:
+            return self.ex(e[2], lambda it: self.after_loop("%s %s%s %s%s" % ("@CMP@" + lname, pre, fixed_txt, it, "".join(" " + v for v in carried)), done_pat, rest))
         if is_for:
             def site(lo):
                 def site2(hi):
@@ -450,6 +515,26 @@ class FnTr:
             return self.ex(e[2], site)
         call = "%s %s%s fuel0%s" % ("@CMP@" + lname, pre, fixed_txt, "".join(" " + v for v in carried))
         return self.after_loop(call, done_pat, rest)
+
+    def pat_vars(self, p, acc):
+        if p[0] == "pid":
+            acc.add(p[1])
+        elif p[0] in ("ptuple", "por"):
+            for x in p[1]:
+                self.pat_vars(x, acc)
+        elif p[0] == "pts":
+            for x in p[2]:
+                self.pat_vars(x, acc)
+
+    def each_elem(self, pat, it):
+        """element type and lean pattern of `for pat in it`"""
+        if it[0] == "mcall" and it[2] == "char_indices" and pat[0] == "ptuple" and len(pat[1]) == 2 and all(x[0] in ("pid", "wild") for x in pat[1]):
+            names = [x[1] if x[0] == "pid" else "_" for x in pat[1]]
+            for n, t in zip(names, ("Nat", "Ch")):
+                if n != "_":
+                    self.types[n] = t
+            return "Nat × Ch", "(%s, %s)" % tuple(names)
+        raise Unsupported("for loop over %s" % json.dumps(it)[:80])
 
     def after_loop(self, call, done_pat, rest):
         return ["(%s).bind fun out =>" % call, "match out with", "| .ret r => .ok r", "| .done %s =>" % done_pat] + ind(rest())
@@ -462,7 +547,14 @@ class FnTr:
 
 
 class ModTr:
-    def __init__(self, ast):
+    def __init__(self, ast, profile=None):
+        self.profile = profile or PROFILES["utils"]
+        if self.profile.get("only"):
+            ast = dict(ast, fns=[f for f in ast["fns"] if f["name"] in self.profile["only"]], enums=[])
+            missing = [n for n in self.profile["only"] if n not in [f["name"] for f in ast["fns"]]]
+        else:
+            missing = []
+        self.missing = missing
         self.enums = {}
         for en in ast["enums"]:
             self.enums[en["name"]] = {}
@@ -474,7 +566,7 @@ class ModTr:
         self.has_while = set()
         self.calls = {}
         self.loop_owner = {}
-        self.problems = []
+        self.problems = ["function not found: " + n for n in missing]
 
     def ty(self, t):
         k = t[0]
@@ -490,8 +582,10 @@ class ModTr:
                 return "Nat"
             if p == ["bool"]:
                 return "Bool"
-            if p == ["str"]:
-                return "α"
+            if p == ["str"] or p == ["String"]:
+                return self.profile["str"]
+            if p == ["char"]:
+                return "Ch"
             if len(p) == 1 and p[0] in self.enums:
                 return p[0]
         raise Unsupported("type %s" % json.dumps(t)[:80])
@@ -583,16 +677,17 @@ class ModTr:
             order.append(f)
         for f in self.fns:
             visit(f)
-        out = ["import Sylvia.Model.RustSem",
-               "/-! REGENERATED on every run by vlib/rs2lean.py from sylvia/src/utils.rs — do not edit. -/",
+        pr = self.profile
+        out = ["import %s" % i for i in pr["imports"]] + [
+               "/-! REGENERATED on every run by vlib/rs2lean.py from %s — do not edit. -/" % "/".join(pr["src"]),
                "set_option linter.unusedVariables false",
-               "namespace Extracted.Utils", "open RustSem", ""]
+               "namespace %s" % pr["ns"], pr["opens"], ""]
         for en in self.enum_order:
             out.append("inductive %s where" % en)
             for v, fields in self.enums[en].items():
                 out.append("  | %s%s" % (v, "".join(" (a%d : %s)" % (i, t) for i, t in enumerate(fields))))
             out += ["deriving DecidableEq, Repr", ""]
-        out += ["section", "variable {α : Type} [DecidableEq α] (cmp_str : α → α → Ordering)", ""]
+        out += ["section", pr["vars"], ""]
         for name in order:
             try:
                 ft = FnTr(self, self.fns[name])
@@ -620,30 +715,33 @@ class ModTr:
                     l = l.replace("@CMP@" + ln, ln + (" cmp_str" if owner_uses else ""))
                 fixed.append(l)
             out += fixed
-        out += ["end", "end Extracted.Utils", ""]
+        out += ["end", "end %s" % pr["ns"], ""]
         return "\n".join(out)
 
 
-def regenerate():
-    """Dump the syntax tree of sylvia/src/utils.rs and rewrite Extracted/UtilsFns.lean. Returns the problem list."""
+def regenerate(which="utils"):
+    """Dump the syntax tree of the profile's source file and rewrite its Extracted/*.lean. Returns the problem list."""
+    pr = PROFILES[which]
     os.makedirs(c.CACHE, exist_ok=True)
-    outp = os.path.join(c.CACHE, "ast_utils.json")
-    c.run_hook("ast", os.path.join(c.REPO, "sylvia", "src", "utils.rs"), outp)
+    outp = os.path.join(c.CACHE, "ast_%s.json" % which)
+    c.run_hook("ast", os.path.join(c.REPO, *pr["src"]), outp)
     ast = json.load(open(outp))
+    head = "".join("import %s\n" % i for i in pr["imports"])
     if "parse_error" in ast:
-        text = "import Sylvia.Model.RustSem\n/- utils.rs does not parse: %s -/\n" % ast["parse_error"]
-        probs = ["utils.rs: " + ast["parse_error"]]
+        text = head + "/- %s does not parse: %s -/\n" % (pr["src"][-1], ast["parse_error"])
+        probs = [pr["src"][-1] + ": " + ast["parse_error"]]
     else:
-        m = ModTr(ast)
         try:
+            m = ModTr(ast, pr)
             text = m.generate()
             probs = m.problems
         except Unsupported as e:
-            text = "import Sylvia.Model.RustSem\n/- untranslatable: %s -/\n" % e
-            probs = ["utils.rs: " + str(e)]
-    c.write_if_changed(os.path.join(c.LEAN, "Sylvia", "Extracted", "UtilsFns.lean"), text)
+            text = head + "/- untranslatable: %s -/\n" % e
+            probs = [pr["src"][-1] + ": " + str(e)]
+    c.write_if_changed(os.path.join(c.LEAN, "Sylvia", "Extracted", pr["out"]), text)
     return probs
 
 
 if __name__ == "__main__":
-    print("problems:", regenerate())
+    for w in PROFILES:
+        print(w, "problems:", regenerate(w))
